@@ -282,14 +282,32 @@ macro_rules! fwd_any { ($($f:ident)*) => { $(fn $f<V: Visitor<'de>>(self, v: V) 
 
 impl<'de> de::Deserializer<'de> for Play {
     type Error = Error;
+    // Strictly typed replay: every request must find the token kind it asks for. (A permissive
+    // `deserialize_any` dispatch lets CBMC explore every visitor x token combination, including
+    // serde's default `visit_u128`, which formats the number into its error message.)
     fn deserialize_any<V: Visitor<'de>>(self, v: V) -> Result<V::Value> {
         match verif::next() {
-            Tok::StructStart => v.visit_map(StructAcc),
-            Tok::MapStart => v.visit_map(MapAcc),
-            Tok::U128(x) => v.visit_u128(x),
             Tok::Scalar(Value::Null) => v.visit_unit(),
             Tok::Scalar(Value::Bool(b)) => v.visit_bool(b),
             Tok::Scalar(Value::Number(n)) => v.visit_i64(n),
+            _ => Err(ERR),
+        }
+    }
+    fn deserialize_u128<V: Visitor<'de>>(self, v: V) -> Result<V::Value> {
+        match verif::next() {
+            Tok::U128(x) => v.visit_u128(x),
+            _ => Err(ERR),
+        }
+    }
+    fn deserialize_map<V: Visitor<'de>>(self, v: V) -> Result<V::Value> {
+        match verif::next() {
+            Tok::MapStart => v.visit_map(MapAcc),
+            _ => Err(ERR),
+        }
+    }
+    fn deserialize_struct<V: Visitor<'de>>(self, _n: &'static str, _f: &'static [&'static str], v: V) -> Result<V::Value> {
+        match verif::next() {
+            Tok::StructStart => v.visit_map(StructAcc),
             _ => Err(ERR),
         }
     }
@@ -299,11 +317,13 @@ impl<'de> de::Deserializer<'de> for Play {
     fn deserialize_newtype_struct<V: Visitor<'de>>(self, _n: &'static str, v: V) -> Result<V::Value> {
         v.visit_newtype_struct(self)
     }
-    fn deserialize_struct<V: Visitor<'de>>(self, _n: &'static str, _f: &'static [&'static str], v: V) -> Result<V::Value> {
-        self.deserialize_any(v)
+    /// Unknown struct fields are an error in this format (the tape only ever holds what the real
+    /// `Serialize` derive wrote); this also keeps serde's recursive `IgnoredAny` visitor out of the model.
+    fn deserialize_ignored_any<V: Visitor<'de>>(self, _v: V) -> Result<V::Value> {
+        Err(ERR)
     }
-    fn deserialize_unit_struct<V: Visitor<'de>>(self, _n: &'static str, v: V) -> Result<V::Value> {
-        self.deserialize_any(v)
+    fn deserialize_unit_struct<V: Visitor<'de>>(self, _n: &'static str, _v: V) -> Result<V::Value> {
+        Err(ERR)
     }
     fn deserialize_tuple_struct<V: Visitor<'de>>(self, _n: &'static str, _l: usize, _v: V) -> Result<V::Value> {
         Err(ERR)
@@ -314,7 +334,7 @@ impl<'de> de::Deserializer<'de> for Play {
     fn deserialize_enum<V: Visitor<'de>>(self, _n: &'static str, _vs: &'static [&'static str], _v: V) -> Result<V::Value> {
         Err(ERR)
     }
-    fwd_any! { deserialize_bool deserialize_i8 deserialize_i16 deserialize_i32 deserialize_i64 deserialize_i128 deserialize_u8 deserialize_u16 deserialize_u32 deserialize_u64 deserialize_u128 deserialize_f32 deserialize_f64 deserialize_char deserialize_str deserialize_string deserialize_bytes deserialize_byte_buf deserialize_unit deserialize_seq deserialize_map deserialize_identifier deserialize_ignored_any }
+    fwd_any! { deserialize_bool deserialize_i8 deserialize_i16 deserialize_i32 deserialize_i64 deserialize_i128 deserialize_u8 deserialize_u16 deserialize_u32 deserialize_u64 deserialize_f32 deserialize_f64 deserialize_char deserialize_str deserialize_string deserialize_bytes deserialize_byte_buf deserialize_unit deserialize_seq deserialize_identifier }
     fn is_human_readable(&self) -> bool {
         true
     }
